@@ -467,6 +467,27 @@ def explore_load(prop, tier, seed, oracle, tags, n_quick, emit=(), with_truth=Fa
                     ex.fail(cid + '-sf', D, ['analysis loaded through a ParserFilter (family %r) that served another file before: %s' % (tid_, (b_ or dd_)[:3])])
             except Exception as e:      # noqa
                 ex.fail(cid + '-sf', D, ['filtered load with a re-used ParserFilter raised %s: %s' % (type(e).__name__, e)])
+        if prop in ('C01', 'C03') and k % 12 == 5 and D.families and not D.meta.get('species_level'):
+            # a REFERENCED gene declared only after the groups section: the streaming loader resolves a reference against the
+            # declarations read so far (KeyError), the recursive model reads the species sections first.  Nothing is claimed
+            # about such files; the document machine (Sax.dstep) must follow pyham call by call, up to the call that raises
+            # (theorem C01_species_after_groups_needs_unreferenced is this shape)
+            refd_ = set(orc.refs_of(D.groups))
+            cand_ = [i_ for i_, (_, gs_) in enumerate(D.species) if any(g_ in refd_ for g_, _ in gs_)]
+            if cand_:
+                i_ = ex.rng.choice(cand_)
+                sp_ = [x_ for j_, x_ in enumerate(D.species) if j_ != i_] + [D.species[i_]]
+                ol_ = ob.Obs()
+                try:
+                    pyham.Ham(tree_file=core.nwk_of(D), hog_file=gen.orthoxml(sp_, D.groups, style=dict(late_species=[len(sp_) - 1])),
+                              orthoXML_as_string=True, use_internal_name=(D.naming == 'own'))
+                    ol_.put('lateload', 'ok')
+                except Exception as e:      # noqa
+                    ol_.put('lateload', 'err:' + ob.err_name(e))
+                sql_, stl_ = core.sax_of_last_load(ol_.tags)
+                ol_.tags.pop('saxev', None)
+                ex.res.count('referenced_gene_declared_after_the_groups_section')
+                ex.submit(cid + '-late', D, ol_.tags, [t_ for t_ in stl_ if t_ == 'saxtr'], species=sp_, hist=False, queries=sql_)
         ex._prevD = D
         if prop == 'C04' and D.naming == 'own' and k % 4 == 0:
             # species_resolve_mode="OMA": a leaf declared by its code AND by the name of a clade that resolves to it has ONE
